@@ -33,18 +33,27 @@ func checkC01(c *Checker) {
 	c.Assumptions = append(c.Assumptions, "channels >= 1 (C20 covers zero channels)", "index arithmetic does not overflow int", "caller slices never alias buffer storage (no API hands out the backing slice; checked by C12-V4)")
 
 	// ---- R1
-	if fn := c.anchor("C01-R1", "(channels).BufferIndex"); fn != nil {
+	if afn := c.anchor("C01-R1", "(channels).BufferIndex"); afn != nil {
+		// evaluated through a buffer (probe b.BufferIndex(channel, idx) of the generated witness), so that the
+		// rule does not depend on which embedded type declares the method
+		fn := c.W.Fn("verifProbeIndex[int8]")
+		if fn == nil {
+			fn = afn
+		}
 		s := c.Summary(fn)
 		if !c.undecidedEffects("C01-R1", "BufferIndex", s) {
 			ret := mergedRet(retPaths(s))
 			want := specAdd(specMul(mkAtom(paramName(fn, 0), intT), mkAtom(paramName(fn, 2), intT)), mkAtom(paramName(fn, 1), intT))
+			if fn != afn {
+				want = specAdd(specMul(buf{paramName(fn, 0)}.ch(), mkAtom(paramName(fn, 2), intT)), mkAtom(paramName(fn, 1), intT))
+			}
 			ok := ret != nil && eqInt(ret, want) && len(panicPaths(s)) == 0
 			for _, o := range s.Outcomes {
 				if len(mods(o)) > 0 {
 					ok = false
 				}
 			}
-			c.expect(ok, "C01-R1", "BufferIndex", c.pos(fn.Pos()), "return term = "+pretty(canon(want)), fmt.Sprintf("return term is %s, expected %s", pretty(canonOrNil(ret)), pretty(canon(want))))
+			c.expect(ok, "C01-R1", "BufferIndex", c.pos(afn.Pos()), "return term = "+pretty(canon(want)), fmt.Sprintf("return term is %s, expected %s", pretty(canonOrNil(ret)), pretty(canon(want))))
 		}
 	}
 	if fn := c.anchor("C01-R1", "(*Buffer[T]).Sample"); fn != nil {
